@@ -491,312 +491,6 @@ def agree(case, i, ia, ma):
     return False
 
 
-# ------------------------------------------------------------------ oracle (plain Python from the property text)
-
-KNOWN_CLASSES = ("sees[condition-string-collision]", "jacobian[duplicate-target]")
-
-
-def parse_table(t):
-    """'T[name:value:lb:ub:fixed,...]' -> list of (name, value, lb, ub, fixed) with exact Fractions / None"""
-    body = t[2:-1]
-    rows = []
-    if body:
-        for e in body.split(","):
-            n, v, lo, hi, fx = e.split(":")
-            rows.append((unshowstr(n), _frac(v), None if lo == "N" else _frac(lo), None if hi == "N" else _frac(hi), fx == "T"))
-    return rows
-
-
-def _frac(s):
-    p, q = s.split("/")
-    return Fraction(int(p), int(q))
-
-
-def parse_ratlist(s):
-    body = s[1:-1]
-    return [] if body == "" else [_frac(x) for x in body.split(",")]
-
-
-def parse_optratlist(s):
-    body = s[1:-1]
-    return [] if body == "" else [None if x == "N" else _frac(x) for x in body.split(",")]
-
-
-def parse_query(o):
-    t, l = o.split(" L", 1)
-    table = parse_table(t)
-    models = []
-    for blk in l[1:-1].split("}{") if l else []:
-        ds = {}
-        if blk:
-            for part in blk.split(" "):
-                n, a, b = part.split("=")
-                ds[unshowstr(n)] = (None if a == "missing" else parse_ratlist(a), None if "IndexError" in b else parse_ratlist(b))
-        models.append(ds)
-    return table, models
-
-
-def in_bounds(v, lo, hi):
-    return (lo is None or lo <= v) and (hi is None or v <= hi)
-
-
-def cond_string(targets):
-    return "|".join(str(t) for t in targets)
-
-
-def oracle(case, ia):
-    try:
-        return _oracle(case, ia)
-    except Exception as e:  # an observation the oracle cannot read is not an acceptable answer
-        return f"unreadable: the implementation's observations could not be interpreted ({e!r}): {ia[0][:300]}"
-
-
-def _oracle(case, ia):
-    if case["op"] == "unique":
-        names = case["names"]
-        seen = []
-        for n in names:
-            if n not in seen:
-                seen.append(n)
-        exp = "[" + ",".join(showstr(s) for s in seen) + "] [" + ",".join(str(seen.index(n)) for n in names) + "]"
-        return None if ia[0] == exp else f"unique: first-occurrence de-duplication of {names} is {exp}, implementation says {ia[0]}"
-    obs = ia[0].split(";")
-    acts = case["actions"]
-    if len(obs) != len(acts):
-        return f"harness-bug: {len(obs)} observations for {len(acts)} actions"
-    k = _key(case)
-    mtab = _CACHE[k][1] if k in _CACHE else None
-    pnames = []
-    for i, spec in enumerate(case["models"]):
-        names = model_param_names(spec)
-        if names is None:
-            names = [n for n, _ in mtab[i]]
-        pnames.append(names)
-    fails = []
-
-    def fail(cid, msg):
-        fails.append(f"{cid}: {msg}")
-
-    data = [[] for _ in case["models"]]  # per model: list of (dsname, [targets], nvalid, x0)
-    all_names = []  # str targets so far (first-occurrence order irrelevant here)
-    E = {}  # what the oracle knows about parameters: name -> dict(field -> value)
-    prevT = None  # table of the immediately preceding query (None once anything happened in between)
-    truth = case.get("truth")
-    last_fit_free = None
-    for idx, (act, o) in enumerate(zip(acts, obs)):
-        a = act["a"]
-        if a == "add":
-            mi = act["mi"]
-            names = pnames[mi]
-            ov = act.get("ov", {})
-            if any(d[0] == act["name"] for d in data[mi]):
-                exp = "add:KeyError"
-            elif len(act["x"]) != len(act["y"]):
-                exp = "add:ValueError"
-            elif any(key not in names for key in ov):
-                exp = "add:KeyError"
-            else:
-                exp = "add:ok"
-                targets = []
-                for pn in names:
-                    t = ov.get(pn)
-                    targets.append(pn if t is None else (t["n"] if "n" in t else t["c"]))
-                valid = [(xv, yv) for xv, yv in zip(act["x"], act["y"]) if not (math.isnan(xv) or math.isnan(yv))]
-                data[mi].append((act["name"], targets, len(valid), valid[0][0] if valid else None))
-                for t in targets:
-                    if isinstance(t, str) and t not in all_names:
-                        all_names.append(t)
-            if o != exp:
-                fail("add", f"action {idx}: expected {exp}, implementation says {o}")
-            prevT = None
-        elif a == "set":
-            exp = "set:ok" if act["name"] in all_names else "set:IndexError"
-            if o != exp:
-                fail("set", f"action {idx}: expected {exp}, implementation says {o}")
-            if exp == "set:ok":
-                v = act["v"]
-                E.setdefault(act["name"], {})[act["f"]] = (None if v is None else (bool(v) if act["f"] == "fixed" else Fraction(v)))
-            prevT = None
-        elif a == "query":
-            try:
-                table, loc = parse_query(o)
-            except Exception as e:  # an implementation answer the oracle cannot read is a failure of the case
-                fail("query", f"action {idx}: unreadable observation {o[:200]} ({e!r})")
-                prevT = None
-                continue
-            tn = [r[0] for r in table]
-            if len(set(tn)) != len(tn) or set(tn) != set(all_names):
-                fail("table-names", f"action {idx}: table has {tn}, the datasets name {all_names}")
-            T = {r[0]: r for r in table}
-            # what was set / fitted earlier is still there
-            for n, flds in E.items():
-                if n in T:
-                    _, v, lo, hi, fx = T[n]
-                    got = {"value": v, "lb": lo, "ub": hi, "fixed": fx}
-                    for f, ev in flds.items():
-                        if got[f] != ev:
-                            fail("kept", f"action {idx}: parameter {n!r} {f} is {got[f]} but was last set/fitted to {ev}")
-            for r in table:
-                E[r[0]] = {"value": r[1], "lb": r[2], "ub": r[3], "fixed": r[4]}
-            # every dataset sees the table entry of the name it is mapped to, or its constant
-            for mi, dsl in enumerate(data):
-                strs = [cond_string(d[1]) for d in dsl]
-                for di, (dn, targets, _, _) in enumerate(dsl):
-                    collision = any(strs[j] == strs[di] and [type(x) for x in dsl[j][1]] + list(dsl[j][1]) != [type(x) for x in targets] + list(targets) for j in range(len(dsl)))
-                    if mi >= len(loc) or dn not in loc[mi]:
-                        fail("sees", f"action {idx}: dataset {dn!r} of model {mi} is not evaluated")
-                        continue
-                    if any(isinstance(t, str) and t not in T for t in targets):
-                        continue  # already reported by table-names
-                    exp = [T[t][1] if isinstance(t, str) else Fraction(t) for t in targets]
-                    byidx, byname = loc[mi][dn]
-                    cid = "sees[condition-string-collision]" if collision else "sees"
-                    if byidx != exp:
-                        fail(cid, f"action {idx}: dataset {dn!r} (model {mi}) maps its parameters to {targets}; the residual is evaluated with {[str(v) for v in byidx or []]}, the table says {[str(v) for v in exp]}")
-                    if byname != exp:
-                        fail(cid, f"action {idx}: dataset {dn!r} (model {mi}) maps its parameters to {targets}; get_params gives {[str(v) for v in byname or []]}, the table says {[str(v) for v in exp]}")
-            # recovery (EXPLORATION): after a fit on noise-free data the generating values are back
-            chk = act.get("check")
-            if chk and truth is not None:
-                tol = act.get("tol", 1e-3)
-                for n, tv in truth.items():
-                    if n in T and not T[n][4]:
-                        if abs(float(T[n][1]) - tv) > tol * max(abs(tv), 1e-12):
-                            fail("recover", f"action {idx} ({chk}): {n!r} = {float(T[n][1])!r}, generating value {tv!r} (rel tol {tol})")
-            prevT = table
-        elif a == "fit":
-            Tb = prevT
-            nxt = None
-            if idx + 1 < len(acts) and acts[idx + 1]["a"] == "query":
-                try:
-                    nxt = parse_query(obs[idx + 1])[0]
-                except Exception:
-                    nxt = None
-            npoints = sum(d[2] for dsl in data for d in dsl)
-            parts = o.split(":")
-            head = parts[1].split("!")[0] if len(parts) > 1 else ""
-            ran = o.startswith("fit:ok:")
-            optimiser_called = len(parts) >= 5
-            if Tb is not None:
-                free = [r for r in Tb if not r[4]]
-                if npoints == 0 or not free:
-                    exp = "RuntimeError"
-                elif any(not in_bounds(r[1], r[2], r[3]) for r in free):
-                    exp = "ValueError"
-                else:
-                    exp = None
-                if exp is not None:
-                    if optimiser_called or head != exp:
-                        fail("fit-refused", f"action {idx}: expected {exp} before the optimiser is called (points {npoints}, free {[r[0] for r in free]}), implementation says {o[:120]}")
-                elif not optimiser_called:
-                    fail("fit-refused", f"action {idx}: start point is feasible and there is data, but fit answered {o[:120]}")
-                if optimiser_called:
-                    x0 = parse_ratlist(parts[2])
-                    lb = parse_optratlist(parts[3])
-                    ub = parse_optratlist(parts[4])
-                    if x0 != [r[1] for r in free] or lb != [r[2] for r in free] or ub != [r[3] for r in free]:
-                        fail("fit-call", f"action {idx}: the optimiser was not started from the free parameters with their bounds: {o[:200]}")
-            if ran:
-                x = parse_ratlist(parts[5].split("!")[0])
-                lb = parse_optratlist(parts[3])
-                ub = parse_optratlist(parts[4])
-                if len(x) != len(lb) or any(not in_bounds(v, lo, hi) for v, lo, hi in zip(x, lb, ub)):
-                    fail("optimiser-contract", f"action {idx}: least_squares answered a point outside its box: {o[:200]}")
-                if Tb is not None and nxt is not None:
-                    if [r[0] for r in nxt] != [r[0] for r in Tb]:
-                        fail("fit-table", f"action {idx}: the table changed its names/order across fit")
-                    else:
-                        kk = 0
-                        for rb, ra in zip(Tb, nxt):
-                            if rb[4]:
-                                if ra != rb:
-                                    fail("fixed", f"action {idx}: fixed parameter {rb[0]!r} changed across fit: {rb[1:]} -> {ra[1:]}")
-                            else:
-                                if ra[2:] != rb[2:]:
-                                    fail("fit-table", f"action {idx}: bounds/flag of {rb[0]!r} changed across fit")
-                                if kk < len(x) and ra[1] != x[kk]:
-                                    fail("write-back", f"action {idx}: {rb[0]!r} is {ra[1]} after the fit, the optimiser answered {x[kk]}")
-                                if not in_bounds(ra[1], ra[2], ra[3]):
-                                    fail("bounds", f"action {idx}: fitted {rb[0]!r} = {ra[1]} outside [{ra[2]}, {ra[3]}]")
-                                kk += 1
-                if Tb is not None:
-                    kk = 0
-                    for rb in Tb:
-                        if not rb[4]:
-                            if kk < len(x):
-                                E[rb[0]] = {"value": x[kk], "lb": rb[2], "ub": rb[3], "fixed": False}
-                            kk += 1
-                else:
-                    for n in E:
-                        E[n].pop("value", None)
-            else:
-                if Tb is not None and nxt is not None and nxt != Tb:
-                    fail("failed-fit-wrote", f"action {idx}: fit ended with {o[:60]} but the table changed")
-            prevT = None
-        elif a == "jac":
-            Tb = prevT
-            if Tb is not None and o.startswith("J["):
-                mi = act["mi"]
-                ent = [d for d in data[mi] if d[0] == act["name"]]
-                if ent:
-                    _, targets, nvalid, _ = ent[0]
-                    row = parse_ratlist(o[1:].split("!")[0])
-                    sens = [Fraction(v) for v in act["sens"]]
-                    exp = []
-                    for r in Tb:
-                        exp.append(-sum((s for s, t in zip(sens, targets) if isinstance(t, str) and t == r[0]), Fraction(0)))
-                    strs = [t for t in targets if isinstance(t, str)]
-                    dup = len(set(strs)) != len(strs)
-                    if row != exp:
-                        fail("jacobian[duplicate-target]" if dup else "jacobian", f"action {idx}: d(residual)/d(parameters) of dataset {act['name']!r} should be {[str(v) for v in exp]} (chain rule over {targets}), the fit's Jacobian has {[str(v) for v in row]}")
-            # prevT stays valid: a probe changes nothing
-        else:
-            return f"harness-bug: unknown action {a}"
-    if not fails:
-        return None
-    unknown = [f for f in fails if f.split(":")[0] not in KNOWN_CLASSES]
-    return (unknown or fails)[0]
-
-
-def tags(case, r):
-    c = r.get("clause") or ""
-    return {"op": case["op"], "clause_id": c.split(":")[0] if c else None}
-
-
-def nontrivial(case, ia):
-    if case["op"] == "unique":
-        return len(set(case["names"])) < len(case["names"])
-    o = ia[0]
-    nds = sum(1 for a in case["actions"] if a["a"] == "add")
-    has_ov = any(a.get("ov") for a in case["actions"] if a["a"] == "add")
-    return ("fit:ok" in o and (nds >= 2 or has_ov or ":T]" in o or ":T," in o)) or "Error" in o or (nds >= 2 and has_ov)
-
-
-def shrink(case):
-    if case["op"] != "script":
-        return
-    acts = case["actions"]
-    for i in range(len(acts) - 1, -1, -1):
-        c = dict(case)
-        c["actions"] = acts[:i] + acts[i + 1 :]
-        yield c
-    for i, a in enumerate(acts):
-        if a["a"] == "add" and len(a["x"]) > 2 and len(a["x"]) == len(a["y"]):
-            c = dict(case)
-            b = dict(a)
-            b["x"] = a["x"][: len(a["x"]) // 2 + 1]
-            b["y"] = a["y"][: len(a["y"]) // 2 + 1]
-            c["actions"] = acts[:i] + [b] + acts[i + 1 :]
-            yield c
-        if a["a"] == "add" and a.get("ov"):
-            for key in list(a["ov"]):
-                c = dict(case)
-                b = dict(a)
-                b["ov"] = {k2: v for k2, v in a["ov"].items() if k2 != key}
-                c["actions"] = acts[:i] + [b] + acts[i + 1 :]
-                yield c
-
-
 # ------------------------------------------------------------------ generators
 
 XS = [0.0, 1.0, 2.0, 3.0, -1.0, 0.5, 4.0, -2.0, 1.5, 2.5, 5.0, -0.5]
